@@ -242,6 +242,7 @@ func configExtra(t *tr) string {
 	b.WriteString(fmt.Sprintf("def wholeNumberPass : String := %q\n", wnFrom))
 	b.WriteString("def wholeNumberKinds : List String := " + cfQ(wnKinds) + "\n")
 	b.WriteString(fmt.Sprintf("def wholeNumberRefuses : String := %q\n\n", wnCond))
+	b.WriteString(configNumberRange(t, p))
 
 	// ---- 3. core/import Import(): hooks and resolvers in registration order
 	ip := load("github.com/yandex/pandora/core/import")
